@@ -37,6 +37,10 @@ func NewProof(hash *hash.Hash, public curve.Point, private curve.Scalar, gen cur
 
 	a := NewRandomness(rand.Reader, group, gen)
 	z := a.Prove(hash, public, private, gen)
+	if z == nil {
+		// no proof exists for the identity point / the zero secret
+		return nil
+	}
 	return &Proof{
 		C: *a.Commitment(),
 		Z: *z,
